@@ -50,6 +50,36 @@ def local_operator_spec(u, selfobj, solution, action):
 
 @unit("tspkopt.step.bookkeeping", file=TSP, func="TSPkoptEnv._step", props=("C09",))
 def _(u):
+    _kopt_step(u, jump=False)
+
+
+@unit("tspkopt.step_to_solution.bookkeeping", file=TSP, func="TSPkoptEnv._step", props=("C09",))
+def _(u):
+    # env.step_to_solution(td, sol): the current tour BECOMES sol; costs, best-so-far, reward and visited_time are re-derived
+    # from sol exactly as after an ordinary move (visited_time = position along sol), the step counter is not advanced
+    _kopt_step(u, jump=True)
+
+
+PDPF = "rl4co/envs/routing/pdp/env.py"
+
+
+@spec(PDPF, "PDPRuinRepairEnv._local_operator")
+def pdp_local_operator_spec(u, selfobj, solution, action):
+    """Contract of the ruin-and-repair surgery (checked exhaustively for small N by the bounded stand-in): a fresh successor array, in range."""
+    return local_operator_spec(u, selfobj, solution, action)
+
+
+@unit("pdprr.step_to_solution.bookkeeping", file=PDPF, func="PDPRuinRepairEnv._step", props=("C09",))
+def _(u):
+    _kopt_step(u, jump=True, pdp=True)
+
+
+@unit("pdprr.step.bookkeeping", file=PDPF, func="PDPRuinRepairEnv._step", props=("C09",))
+def _(u):
+    _kopt_step(u, jump=False, pdp=True)
+
+
+def _kopt_step(u, jump, pdp=False):
     B, N = u.dims("B N")
     td = u.td(B, locs=((B, N, 2), "f"), rec_best=((B, N), "i"), rec_current=((B, N), "i"), cost_bsf=((B,), "f"),
               cost_current=((B,), "f"), visited_time=((B, N), "i"), i=((B, 1), "i"), action=((B, 2), "i"))
@@ -59,7 +89,11 @@ def _(u):
     best_cost = tour_cost(td["locs"], td["rec_best"])
     u.requires(u.forall((B,), lambda b: td["cost_bsf"].at(b) == best_cost.at(b)))
     pre = u.snapshot(td)
-    env = u.obj(TSP, "TSPkoptEnv", k_max=2, two_opt_mode=True, generator=u.ns(num_loc=N))
+    FILE, CLS = (PDPF, "PDPRuinRepairEnv") if pdp else (TSP, "TSPkoptEnv")
+    if pdp:
+        td.data["action_record"] = u.tensor("action_record", (B, N, N), "f")
+        u.requires(u.forall((B,), lambda b: AND(td["action"].at(b, 0) >= 0, td["action"].at(b, 0) < N)))   # a removable pair index
+    env = u.obj(FILE, CLS, k_max=2, two_opt_mode=True, generator=u.ns(num_loc=N))
     # ghost: POS(b,t) = the t-th node along next_rec starting from node 0
     POS = z3.Function("pos_along_tour", z3.IntSort(), z3.IntSort(), z3.IntSort())
 
@@ -71,12 +105,19 @@ def _(u):
                 ("last-write-wins", u.forall((B, (1, zint(i) + 1)), lambda b, t: IMPL(u.forall(((zint(t) + 1, zint(i) + 1),), lambda t2: POS(b, t2) != POS(b, t)), vt.at(b, POS(b, t)) == t)))]
 
     u.requires(u.forall((B,), lambda b: POS(b, 0) == 0))
-    u.loop(TSP, "TSPkoptEnv._step", 0, LoopInvariant(inv, name="visited-time-loop", tags=("C09",),
+    u.loop(FILE, f"{CLS}._step", 0, LoopInvariant(inv, name="visited-time-loop", tags=("C09",),
                                                       facts=lambda e, i: [u.forall((B,), lambda b: POS(b, zint(i) + 1) == e["next_rec"].at(b, POS(b, zint(i))))]))
-    out = u.run(TSP, "TSPkoptEnv._step", td, selfobj=env)
+    if jump:
+        sol = u.tensor("solution_to", (B, N), "i")
+        u.requires(u.forall((B, N), lambda b, i: AND(sol.at(b, i) >= 0, sol.at(b, i) < N)))
+        out = u.run(FILE, f"{CLS}._step", td, sol, selfobj=env)
+    else:
+        out = u.run(FILE, f"{CLS}._step", td, selfobj=env)
     b = u.idx((B,), "b")
     n = u.idx((N,), "n")
     nxt = out["rec_current"]
+    if jump:
+        u.prove("jump.current-tour-is-the-given-solution", AND(nxt.at(b, n) == sol.at(b, n), nxt.root() is not sol.root()))
     new_cost = tour_cost(pre["locs"], nxt)
     c0 = pre["cost_bsf"].at(b)
     u.prove("step.cost_current-is-length-of-current-tour", out["cost_current"].at(b) == new_cost.at(b))
@@ -88,7 +129,7 @@ def _(u):
     best2 = tour_cost(pre["locs"], out["rec_best"])
     u.prove("step.cost_bsf-is-length-of-best-tour", out["cost_bsf"].at(b) == best2.at(b))
     u.prove("step.rec_best-not-aliased", out["rec_best"].root() is not nxt.root())
-    same_tensor(u, "step.i", out["i"], (B, 1), lambda bb, _: pre["i"].at(bb, 0) + 1)
+    same_tensor(u, "step.i", out["i"], (B, 1), (lambda bb, _: pre["i"].at(bb, 0)) if jump else (lambda bb, _: pre["i"].at(bb, 0) + 1))
     # visited_time[b, node] = position of the node along the new tour (for nodes reached once: a valid tour)
     t = u.idx(((1, N + 1),), "t")
     later_distinct = u.forall(((zint(t) + 1, N + 1),), lambda t2: POS(b, t2) != POS(b, t))
